@@ -3,6 +3,7 @@
 package main
 
 import (
+	"syscall"
 	"bufio"
 	"bytes"
 	"os"
@@ -27,7 +28,16 @@ type cliResult struct {
 
 // runCLI runs the real decipher binary in directory dir with a watchdog.
 func runCLI(dir string, argv []string, stdin []byte, env []string, timeout time.Duration) cliResult {
+	return runCLIAs(0, dir, argv, stdin, env, timeout)
+}
+
+// runCLIAs: uid 0 = as the harness itself; otherwise the binary runs with that uid/gid (an unprivileged user, for whom file
+// modes mean something)
+func runCLIAs(uid uint32, dir string, argv []string, stdin []byte, env []string, timeout time.Duration) cliResult {
 	cmd := exec.Command(binPath("decipher"), argv...)
+	if uid != 0 {
+		cmd.SysProcAttr = &syscall.SysProcAttr{Credential: &syscall.Credential{Uid: uid, Gid: uid, NoSetGroups: false}}
+	}
 	cmd.Dir = dir
 	cmd.Env = append([]string{"PATH=/usr/bin:/bin", "HOME=/nonexistent"}, env...)
 	if stdin != nil {
